@@ -1,4 +1,4 @@
-import TracklibVerif.Model.MapMatchNet
+import TracklibVerif.Model.MapMatchZ
 import TracklibVerif.Drv.Util
 /-! Driver handler for C10 (map-matching), `Float` instances of `Model/MapMatch` (command `match`: candidate loop and inference
 on candidate lists and decoded indices given by the caller) and of `Model/MapMatchNet` (command `net`: network construction,
@@ -24,7 +24,10 @@ Floats are IEEE bit patterns.
    → `err:<kind>` when the construction raises, else
      `ok <geoms> <curvs> <nodes> <ends> <grid> <call> <call> …` : geometries and abs_curv columns by edge number, node table
      `id,x,y;…` in registration order, `source,target;…` by edge number, `xmin,xmax,ymin,ymax,csize,lsize`, and per call the
-     tracks `STATES#inference#names#obs_noise#positions` separated by `/`, the first failing track being `E<kind>`. -/
+     tracks `STATES#inference#names#obs_noise#positions` separated by `/`, the first failing track being `E<kind>`.
+  match3 / curv3 / net3 : the same three commands on data WITH ALTITUDES (`Model/MapMatchZ`): every point is `x,y,z` (edge
+     vertices, node coordinates, observations; a vertex may be written `x,y`: `wktVertex`); a state is `px,py,edge,d0,d1,pz`; positions come back as `x,y,z`; `net3` replies
+     one more field after the `abs_curv` columns: the edge weights `Track.length()` (3D) by edge number. -/
 namespace TV.Drv.C10
 open TV.Proj TV.MapMatch TV.Drv
 
@@ -148,6 +151,98 @@ def showNet (net : Net Float) : String :=
     | some ix => s!"{showFloat ix.xmin},{showFloat ix.xmax},{showFloat ix.ymin},{showFloat ix.ymax},{ix.csize},{ix.lsize}"
   s!"{geoms} {curvs} {nodes} {ends} {grid}"
 
+/-! ### data with altitudes (`Model/MapMatchZ`) -/
+
+/-- a point `x,y,z`, or `x,y` as `wktLineStringToObs` reads a 2D vertex (altitude 0) -/
+def pt3? (s : String) : Option (P3 Float) :=
+  match (splitTok s ',').mapM float? with
+  | some l => wktVertex l
+  | none => none
+
+def geom3? (s : String) : Option (List (P3 Float)) := (splitTok s ';').mapM pt3?
+
+def showP3 (p : P3 Float) : String := s!"{showFloat p.1},{showFloat p.2.1},{showFloat p.2.2}"
+
+def showState3 (s : State3 Float) : String :=
+  s!"{showFloat s.p.1},{showFloat s.p.2.1},{s.edge},{showFloat s.d0},{showFloat s.d1},{showFloat s.p.2.2}"
+
+def showStates3 (st : List (List (State3 Float))) : String :=
+  joinWith "|" (st.map (fun l => joinWith ";" (l.map showState3)))
+
+def edgeIn3? (s : String) : Option (EdgeIn3 Float × Node3 Float × Node3 Float) :=
+  match s.splitOn ":" with
+  | [i, a, b, o, ca, cb, g] => do
+    let i ← i.toNat?; let a ← a.toNat?; let b ← b.toNat?; let o ← o.toInt?
+    let ca ← pt3? ca; let cb ← pt3? cb; let g ← geom3? g
+    pure (readerEdge3 Float.sqrt i g o, ⟨a, ca⟩, ⟨b, cb⟩)
+  | _ => none
+
+structure TrackReq3 where
+  t : TrackS3 Float
+  chosen : Option (List Int)
+
+def trackReq3? (s : String) : Option TrackReq3 :=
+  match s.splitOn "~" with
+  | [ns, nz, pts, ch] => do
+    let noise ← floatList? nz
+    let pts ← geom3? pts
+    let chosen ← if ch == "x" then some none else (intList? ch).map some
+    pure ⟨⟨pts.map (fun p => ⟨p, 0⟩), splitTok ns ',', noise⟩, chosen⟩
+  | _ => none
+
+structure CallReq3 where
+  radius : Float
+  noise : Float
+  one : Bool
+  tracks : List TrackReq3
+
+def callReq3? (s : String) : Option CallReq3 :=
+  match s.splitOn ":" with
+  | [r, n, form, ts] => do
+    let r ← float? r; let n ← float? n
+    let one ← if form == "one" then some true else if form == "many" then some false else none
+    let ts ← (ts.splitOn "/").mapM trackReq3?
+    if one && ts.length != 1 then none else pure ⟨r, n, one, ts⟩
+  | _ => none
+
+def chosenDecoder3 (chosen : List Int) : Decoder3 Float := fun _ _ states =>
+  (states.zip chosen).map (fun (l, c) => (l.findIdx? (fun s => s.edge == c)).getD l.length)
+
+def showResultN3 (r : ResultN3 Float) : String :=
+  showStates3 r.states ++ "#" ++ joinWith ";" (r.inference.map showState3) ++ "#" ++ joinWith "," r.track.names ++ "#"
+    ++ showList showFloat r.track.noise ++ "#" ++ joinWith ";" (r.track.obs.map (fun o => showP3 o.pos))
+
+def runCall3 (net : Net3 Float) (c : CallReq3) : String :=
+  let a : Args Float := ⟨c.noise, 10, c.radius, false, false⟩
+  let rec go : List TrackReq3 → List String
+    | [] => []
+    | tr :: rest =>
+      match tr.chosen with
+      | none =>
+        if tr.t.obs.isEmpty then ["Eempty"] else
+        match allStatesNet3 Float.sqrt flFloat eps c.radius net tr.t.obs with
+        | .error e => [showErrN e]
+        | .ok st => [showStates3 st ++ "#_#_#_#_"]
+      | some ch =>
+        let arg : TracksArg3 Float := if c.one then .one tr.t else .many [tr.t]
+        match mapOnNetworkFront3 Float.sqrt flFloat eps net (chosenDecoder3 ch) a arg with
+        | ([r], none) => showResultN3 r :: go rest
+        | (_, some e) => [showErrN e]
+        | _ => ["Ebad"]
+  joinWith "/" (go c.tracks)
+
+def showNet3 (net : Net3 Float) : String :=
+  let es := (List.range net.edges.length).filterMap (edgeNo3 net)
+  let geoms := joinWith "|" (es.map (fun ne => joinWith ";" (ne.e.geom.map showP3)))
+  let curvs := joinWith "|" (es.map (fun ne => showList showFloat ne.e.curv))
+  let weights := showList showFloat (es.map (fun ne => ne.e.weight))
+  let nodes := joinWith ";" (net.nodes.map (fun n => s!"{n.id},{showP3 n.coord}"))
+  let ends := joinWith ";" (es.map (fun ne => s!"{ne.source},{ne.target}"))
+  let grid := match net.index with
+    | none => "none"
+    | some ix => s!"{showFloat ix.xmin},{showFloat ix.xmax},{showFloat ix.ymin},{showFloat ix.ymax},{ix.csize},{ix.lsize}"
+  s!"{geoms} {curvs} {weights} {nodes} {ends} {grid}"
+
 def showGridErr : Grid.Err → String
   | .zerodiv => "err:zerodiv" | .index => "err:index" | .type => "err:type" | .exit => "err:exit"
 
@@ -161,6 +256,37 @@ def handle (cmd : String) (args : List String) : String :=
       | .error e => showGridErr e
       | .ok net => " ".intercalate (["ok", showNet net] ++ calls.map (runCall net))
     | _, _, _, _, _ => "bad-request"
+  | "net3", es :: late :: res :: margin :: calls =>
+    let res? : Option (Option (Float × Float)) := if res == "none" then some none else (pt? res).map some
+    match (es.splitOn "|").mapM edgeIn3?, late.toNat?, res?, float? margin, calls.mapM callReq3? with
+    | some es, some late, some res, some margin, some calls =>
+      match buildNet3 flFloat es late res margin with
+      | .error e => showGridErr e
+      | .ok net => " ".intercalate (["ok", showNet3 net] ++ calls.map (runCall3 net))
+    | _, _, _, _, _ => "bad-request"
+  | "curv3", [g] =>
+    match geom3? g with
+    | some pts => showList showFloat (absCurv3 Float.sqrt pts) ++ " " ++ showFloat (trackLength3D Float.sqrt pts)
+    | none => "bad-request"
+  | "match3", [r, es, tr, cs, ix] =>
+    match float? r, (es.splitOn "|").mapM geom3?, geom3? tr, ((cs.splitOn ";").mapM cand?) with
+    | some radius, some geoms, some track, some cands =>
+      if cands.length != track.length then "bad-request" else
+      let edges := geoms.map (mkEdge3 Float.sqrt)
+      let obs : List (Obs3 Float) := track.map (fun p => ⟨p, 0⟩)
+      if ix == "x" then
+        match allStates3 Float.sqrt eps radius edges obs cands with
+        | .error e => showErr e
+        | .ok st => "ok " ++ showStates3 st ++ " # _"
+      else
+        match natList? ix with
+        | none => "bad-request"
+        | some idx =>
+          if idx.length != track.length then "bad-request" else
+          match mapOnNetwork3 Float.sqrt eps radius edges 1 (fun _ => idx) obs [] cands with
+          | .error e => showErr e
+          | .ok res => "ok " ++ showStates3 res.states ++ " # " ++ joinWith ";" (res.inference.map showState3)
+    | _, _, _, _ => "bad-request"
   | "curv", [g] =>
     match geom? g with
     | some pts => showList showFloat (absCurv Float.sqrt pts)
